@@ -139,7 +139,7 @@ class OneShot(BaseException):
 
 
 class World:
-    def __init__(self, capacity: int, sizes: dict[str, int], variants=("ok", "fail-early", "fail-late"), real: bool = False):
+    def __init__(self, capacity: int, sizes: dict[str, int], variants=("ok", "fail-early", "fail-late"), real: bool = False, trim: bool = False):
         self.capacity, self.sizes, self.variants = capacity, dict(sizes), variants
         self.real = real
         self.trace: list = []
@@ -166,7 +166,7 @@ class World:
         else:
             dataset.SharedMemory = disk.SharedMemory = client.SharedMemory = self.ns.SharedMemory
             disk.multiprocessing = client.multiprocessing = nomp
-        dataset.get_capacity = lambda: 1 << 40
+        dataset.get_capacity = (lambda: capacity) if trim else (lambda: 1 << 40)
 
         def time_ns():
             w.clock += 1
@@ -194,6 +194,7 @@ class World:
         self._dir: str | None = None
         self.fail_file_open = False
         self.pending: list[tuple[str, str, tuple]] = []  # (kind, shmid, args)
+        self.purge_mid = False     # option: a purge may be handled in the middle of a page-out job
         self.eager = None          # armed variant: jobs submitted by the next request complete inline
         self.arm_used = self.eager_fired = self.allow_arm = False
         self.abandoned: set = set()  # (key, incarnation) of unfinished datasets paged out under a stale writer
@@ -249,7 +250,8 @@ class World:
         server.signal = types.SimpleNamespace(signal=lambda *a: None, SIGINT=2, SIGTERM=15)
         import os as _os
 
-        self.srv = server.LocalServer(1, f"v{_os.getpid() % 100000}x" if real else "p", capacity)
+        # trim: the store is configured with far more than the machine offers and must trim itself to `capacity`
+        self.srv = server.LocalServer(1, f"v{_os.getpid() % 100000}x" if real else "p", capacity * 250 if trim else capacity)
         self.mgr = self.srv.manager
 
         class CliSock:
@@ -345,6 +347,8 @@ class World:
                 continue
             for v in self.variants:
                 evs.append(("done", j, v))
+            if self.purge_mid and self.pending[j][0] == "out" and not self.split:
+                evs.append(("done", j, "purge-mid"))
         if self.allow_arm and not self.arm_used:
             evs.append(("arm", "ok"))
             evs.append(("arm", "fail-early"))
@@ -582,7 +586,24 @@ class World:
                 self.ns.fail_open = True
             elif variant == "fail-late":
                 self.ns.fail_unlink = True
-            d._page_out(vd, shmid, spy)
+            elif variant == "purge-mid":
+                # the server thread handles a purge of this key after the job attached the segment and before it
+                # unlinks it: the file open inside _page_out is the point in between
+                import builtins
+
+                def hooked_open(*a, **kw):
+                    del disk.open
+                    self.ev_purge(k)
+                    return builtins.open(*a, **kw)
+
+                disk.open = hooked_open
+            try:
+                d._page_out(vd, shmid, spy)
+            finally:
+                if hasattr(disk, "open"):
+                    del disk.open
+            if variant == "purge-mid":
+                current = self.incarnation.get(k, 0) == inc and k in self.ref_known
         else:
             if variant == "fail-early":
                 self.ns.fail_create = True
@@ -666,10 +687,11 @@ class World:
 
 
 def build(cfg: dict, hist: list, real: bool = False) -> World:
-    w = World(cfg["capacity"], cfg["sizes"], tuple(cfg.get("variants", ("ok", "fail-early", "fail-late"))), real=real)
+    w = World(cfg["capacity"], cfg["sizes"], tuple(cfg.get("variants", ("ok", "fail-early", "fail-late"))), real=real, trim=bool(cfg.get("trim")) and not real)
     w.allow_age = cfg.get("age") or False  # True: readers may grow stale; "writers": writers too
     w.split = bool(cfg.get("split"))
     w.allow_arm = bool(cfg.get("eager"))
+    w.purge_mid = bool(cfg.get("purge_mid"))
     for ev in hist:
         w.apply(tuple(ev))
     return w
@@ -691,7 +713,10 @@ def liveness_violations(cfg: dict, hist: list) -> list[tuple[str, str, str]]:
     for req in reqs:
         w = build(cfg, hist)
         k = req[1]
-        pinned = sum(w.sizes[j] for j in w.sizes if j != k and (j in w.writers or w.readers.get(j)) and j in w.ref_resident)  # stale handles still pin: conservative
+        # only handles younger than the staleness window pin a dataset: one held by stale handles alone is idle by the
+        # store's own rule (is_pageoutable) and must be evictable
+        pinned = sum(w.sizes[j] for j in w.sizes if j != k and j in w.ref_resident
+                     and ((j in w.writers and w.fresh(w.writers[j])) or any(w.fresh(b) for b in w.readers.get(j, []))))
         if w.sizes[k] + pinned > w.capacity:
             continue  # not satisfiable by evicting idle datasets
         granted = False
